@@ -1024,8 +1024,12 @@ func (w *world) checkC44() {
 			}
 		}
 		if c.state != "open" {
-			if c.state == "ended" && c.maxPark < 25*time.Second && c.stalls == 0 {
-				res.Fail("C44", "O44.2", "%s was disconnected by the server (%s) although it never stopped reading for 25 s", c.name, c.endErr)
+			// The server may drop a client that does not read: the heartbeat's ping is a
+			// control frame with a 5 s write timeout (and it is sent right after the
+			// upgrade), results have 30 s. Only a client the simulator never kept from
+			// reading for 4 simulated seconds must stay connected.
+			if c.state == "ended" && c.maxPark < 4*time.Second && c.stalls == 0 {
+				res.Fail("C44", "O44.2", "%s was disconnected by the server (%s) although it never stopped reading for as long as 4 s", c.name, c.endErr)
 				return
 			}
 			continue
